@@ -44,16 +44,16 @@ vars == <<f, a, b, div, nops, last, used, fresh>>
 
 Op(o, deg, n, size, nonce, d) == [op |-> o, deg |-> deg, n |-> n, size |-> size, nonce |-> nonce, d |-> d]
 Z8 == <<0, 0, 0, 0, 0, 0, 0, 0>>
-Ops == {Op("reseed", 0, 0, 0, Z8, <<"d", k>>) : k \in DigestAtoms}
-       \cup {Op("draw", g, 0, 0, Z8, NoD) : g \in Degs}
+Ops == {Op("reseed", 0, 0, Z8, Z8, <<"d", k>>) : k \in DigestAtoms}
+       \cup {Op("draw", g, 0, Z8, Z8, NoD) : g \in Degs}
        \cup {Op("ints", 0, n, sz, x, NoD) : n \in Counts, sz \in Sizes, x \in NonceSet}
-       \cup {Op("lz", 0, 0, 0, x, NoD) : x \in NonceSet}
+       \cup {Op("lz", 0, 0, Z8, x, NoD) : x \in NonceSet}
 
 NoRes == [st |-> C!St(NoD, 0), res |-> C!Ok(<<>>), src |-> <<>>, ok |-> TRUE]
 Init == /\ f \in MFields
         /\ \E seed \in SeedSet : a = C!New(<<>>, seed).st /\ b = C!New(<<>>, seed).st
         /\ div = FALSE /\ nops = 0
-        /\ last = [op |-> Op("none", 0, 0, 0, Z8, NoD), ra |-> NoRes, rb |-> NoRes]
+        /\ last = [op |-> Op("none", 0, 0, Z8, Z8, NoD), ra |-> NoRes, rb |-> NoRes]
         /\ used = {} /\ fresh = TRUE
 
 Range(s) == {s[i] : i \in 1..Len(s)}
@@ -106,6 +106,10 @@ ASSUME FirstAcceptReachable ==
 
 MFieldsAll == {"m97", "m251"}
 SeedsTwo == {<<>>, <<1, 0, 0, 0>>}
+\* domain sizes as 8-byte little-endian arrays: 2, 8, 2^35 (the mask cuts inside the fifth byte), 2^63
+SizesQuick    == {<<2, 0, 0, 0, 0, 0, 0, 0>>, <<0, 0, 0, 0, 8, 0, 0, 0>>}
+SizesThorough == {<<2, 0, 0, 0, 0, 0, 0, 0>>, <<8, 0, 0, 0, 0, 0, 0, 0>>, <<0, 0, 0, 0, 8, 0, 0, 0>>,
+                  <<0, 0, 0, 0, 0, 0, 0, 128>>}
 SeedsOne == {<<1, 0, 0, 0>>}
 NoncesTwo == {Z8, <<255, 255, 255, 255, 255, 255, 255, 255>>}
 NoncesThree == {Z8, <<1, 0, 0, 0, 0, 0, 0, 0>>, <<255, 255, 255, 255, 255, 255, 255, 255>>}
